@@ -46,6 +46,7 @@ struct Opts {
     structural: bool,       // struct/enum take: re-emit derive(PartialEq, Eq) as derive(Structural, PartialEq, Eq) when the original derives both
     modfn: Vec<(String, String)>, // R24: module-qualified callee -> distinct emitted name
     optmap: bool,           // R32: `X.map(|p| IO)` in this take is Option::map
+    vpanic: bool,           // R40: `panic!(..)` -> `vpanic()` (a `-> !` shim: control does not continue; the message is dropped)
     anf: bool,              // R38: call / closure arguments of the tail call are bound to locals first (left to right, inner calls before outer: Rust's evaluation order), so that proof text can name them
     dropnested: bool,       // R35: nested `fn` items are removed from the body (each is taken separately with `:: nested fn NAME` and emitted at module level; nested fns cannot capture)
     r28: bool,              // R28: `X.and_then(|p| BODY)` with I/O in BODY -> `match X { Ok(p) => BODY, Err(e) => Err(e) }`
@@ -84,6 +85,7 @@ fn parse_opts(s: &str) -> Opts {
             "r28" => o.r28 = true,
             "dropnested" => o.dropnested = true,
             "anf" => o.anf = true,
+            "vpanic" => o.vpanic = true,
             "optmap" => o.optmap = true,
             "modfn" => o.modfn = v.split(';').filter_map(|kv| kv.rsplit_once(':').map(|(a, b)| (a.to_string(), b.to_string()))).collect(),
             "structural" => o.structural = true,
@@ -606,7 +608,7 @@ impl VisitMut for Rw {
         if let Expr::MethodCall(mc) = e {
             if mc.method == "unwrap_or_else" && mc.args.len() == 1 {
                 if let Expr::Closure(c) = &mc.args[0] {
-                    if c.inputs.len() == 1 && c.body.to_token_stream().to_string().contains("exit (") {
+                    if c.inputs.len() == 1 && (c.body.to_token_stream().to_string().contains("exit (") || (self.o.vpanic && c.body.to_token_stream().to_string().contains("panic !"))) {
                         let recv = (*mc.receiver).clone(); let pat = c.inputs[0].clone(); let body = (*c.body).clone();
                         self.bump("R29");
                         let mut ne: Expr = parse_quote!(match #recv { Ok(__v) => __v, Err(#pat) => #body });
@@ -828,6 +830,7 @@ impl VisitMut for Rw {
             // R14: (self.f)(a) -> self.f.call(a)
             Expr::Macro(m) => {
                 let name = m.mac.path.segments.last().map(|s| s.ident.to_string()).unwrap_or_default();
+                if name == "panic" && self.o.vpanic { self.bump("R40"); *e = parse_quote!(vpanic()); return; }
                 let is_write = name == "write";
                 if (name == "format" || is_write) && !self.o.nofmt {
                     // R5 (format!) / R5b (write!(f, ..) -> f.write_str(&<formatted>))
